@@ -81,6 +81,11 @@ CLAIMED = {
         note="Trusted: Lean kernel; hand model tied by per-step correspondence (props/c06.py, psmdrv.py); AVP content of the answers is checked on the implementation only (the model carries command and identifiers); identifiers are modelled as naturals (the wire width is C01's).",
         technique="Lean 4 proof (history invariant: answers written = answers owed) + differential correspondence",
         design="4 C07"),
+    "C15": dict(
+        text="Lean: transition system of identifier assignment (per creating thread: read 4 random bytes, then atomically test-and-register or go back to reading; Hop-by-Hop then End-to-End), any number of threads, ANY random stream (repeats allowed) and ANY interleaving; theorems by induction over all schedules: both registries are duplicate-free, identifiers issued to different creations are pairwise distinct, registries only grow, creations from an explicit header (and answers) do not touch them. Tie: sequential histories over scripted adversarial random sources through generic and typed request classes compared with the model; concurrent creation by 2..3 real threads under the simulation scheduler with hand-over at every source line of the two methods (depth-first schedule enumeration + random/priority schedules), registry operations logged, mapped to model actions and replayed on the model.",
+        note="Trusted: Lean kernel; hand model tied by correspondence; os.urandom rebound in bromelia.base; the class-level lock replaced by the scheduler's lock; atomicity below a source line (GIL) not modelled; registry growth without bound is outside the property.",
+        technique="Lean 4 proof (inductive invariant over all interleavings and random streams) + schedule-enumerating differential correspondence",
+        design="4 C15"),
 }
 
 NOT_YET = {
